@@ -806,4 +806,40 @@ def run(ctx, rep):
     bad = set(eff) - {'STDERR', 'ABORT', 'STREAM_WRITE', 'LOG'}
     rep.check(not bad, 'R-C09-5', 'state_read effect set', P.fn('state_read').file, 'effects reachable from state_read: %s' % sorted(eff), function='state_read', construct='write effect')
     rule_save_protocol(ctx, rep)
+    stream_all_handles_rule(P, rep, 'R-C09-6m')
     rule_crc_tables(P, rep)
+
+
+def stream_all_handles_rule(P, rep, rid):
+    """the content file is written through one stream with several file handles (one per copy, or one per writer thread): the
+    primitives that loop over the handles -- write of the buffer, fsync, close -- must apply the system call to the handle of the
+    current iteration.  A descriptor that does not derive from handle[i] (say, always the first handle) flushes / closes one copy n
+    times and the other copies never: they are renamed unflushed, and their fsync errors are never seen."""
+    rep.rule(rid, 'stream.c: in every loop over s->handle_size the descriptor handed to write / fsync / close derives from s->handle[<loop counter>]', 3)
+    n = 0
+    for f in P.defined():
+        if not (f.file or '').endswith('stream.c'):
+            continue
+        for h, body in f.loops.items():
+            t = f.term(h)
+            ci = f.inst_of(t.ops[0]) if t.op == 'br' and len(t.ops) == 3 else None
+            if ci is None or ci.op != 'icmp' or not any(f.xexpr(o).endswith('->handle_size') for o in ci.ops):
+                continue
+            cnt = None
+            for o in ci.ops:
+                li = f.inst_of(o)
+                if li is not None and li.op == 'load' and f.strip(li.ops[0])[0] == 'i' and f.insts[f.strip(li.ops[0])[1]].op == 'alloca':
+                    cnt = f.insts[f.strip(li.ops[0])[1]]
+            for c in f.calls({'write', 'fsync', 'close', 'fdatasync', 'pwrite'}):
+                if c.block not in body:
+                    continue
+                n += 1
+                rep.analysed(f)
+                src = f.value_sources(c.ops[0])
+                e = f.xexpr(c.ops[0])
+                ok = any(x[0] == 'mem' and '->handle[' in x[1] for x in src) and cnt is not None and ('handle[%s]' % (cnt.var or '')) in e
+                rep.check(ok, rid, '%s: %s(%s) in the loop over the handles' % (base(f.name), c.callee, e[:40]), c.loc(),
+                          'descriptor of the handle of this iteration' if ok else 'the descriptor (%s) does not come from s->handle[%s]: the call is applied to the same file in every iteration, the other copies are never flushed / synced / closed and their errors are not seen' % (e[:60], cnt.var if cnt is not None else 'i'),
+                          function=base(f.name), construct='%s on every handle' % c.callee)
+    if n < 3:
+        raise AnalysisBroken('stream.c: loops over the handles not recognised (%d calls)' % n)
